@@ -57,10 +57,10 @@ theorem emit_spec (markers : List Marker) (seq : Bytes) (f m : PrimerMatch) (a :
               obtain ⟨w, sh2⟩ := q
               simp only [h4] at h
               cases hf : f.forward <;> simp [hf] at h <;> subst h
-              · exact ⟨rfl, hf.symm, rfl, rfl, ⟨w, sh2, rfl, rfl⟩, ⟨m1, rfl, by simp [hf]⟩,
-                  ⟨x, sh1, rfl, by simp [hf]⟩, by simp [hf], ⟨mk, rfl, by simpa [hf] using h3, rfl⟩⟩
-              · exact ⟨rfl, hf.symm, rfl, rfl, ⟨w, sh2, rfl, rfl⟩, ⟨m1, rfl, by simp [hf]⟩,
-                  ⟨x, sh1, rfl, by simp [hf]⟩, by simp [hf], ⟨mk, rfl, by simpa [hf] using h3, rfl⟩⟩
+              · exact ⟨rfl, hf.symm, rfl, rfl, ⟨w, sh2, h4, by simp⟩, ⟨m1, h1, by simp [hf]⟩,
+                  ⟨x, sh1, h2, by simp [hf]⟩, by simp [hf], ⟨mk, hmk, by simpa [hf] using h3, rfl⟩⟩
+              · exact ⟨rfl, hf.symm, rfl, rfl, ⟨w, sh2, h4, by simp⟩, ⟨m1, h1, by simp [hf]⟩,
+                  ⟨x, sh1, h2, by simp [hf]⟩, by simp [hf], ⟨mk, hmk, by simpa [hf] using h3, rfl⟩⟩
 
 theorem runPairs_mem (markers : List Marker) (seq : Bytes) (ps : List (PrimerMatch × PrimerMatch))
     (as : List Amplicon) (h : runPairs markers seq ps = .ok as) (a : Amplicon) (ha : a ∈ as) :
@@ -126,9 +126,8 @@ theorem Annots.any_set (an : Annots) (k v k' : String) :
       congr 1
       funext p
       by_cases hp : p.1 = k
-      · simp [hp, hk]
-      · have : (p.1 == k) = false := by simp [hp]
-        simp [this]
+      · simp [hp]
+      · simp [hp]
     · simp [hk']
 
 /-- a key that is not there yet is appended -/
@@ -136,6 +135,98 @@ theorem Annots.set_fresh (an : Annots) (k v : String) (h : an.any (·.1 == k) = 
     an.set k v = an ++ [(k, v)] := by
   unfold Annots.set
   simp [h]
+
+/-! ## the annotation list of an amplicon, block by block -/
+
+def tagBlock (k : String) (t : Bytes) : Annots := if t ≠ [] then [(k, str t)] else []
+
+def fpropBlock (mode : Mode) : Option (Bytes × Option Nat) → Annots
+  | some (t, d) => [("obimultiplex_forward_matching", modeName mode),
+      ("obimultiplex_forward_tag_dist", distStr d), ("obimultiplex_forward_proposed_tag", str t)]
+  | none => []
+
+def rpropBlock (mode : Mode) : Option (Bytes × Option Nat) → Annots
+  | some (t, d) => [("obimultiplex_reverse_matching", modeName mode),
+      ("obimultiplex_reverse_tag_dist", distStr d), ("obimultiplex_reverse_proposed_tag", str t)]
+  | none => []
+
+/-- the annotations common to assigned and unassigned amplicons -/
+def baseAnnots (mk : Marker) (a : Amplicon) : Annots :=
+  [("obimultiplex_forward_primer", mk.fprimer), ("obimultiplex_reverse_primer", mk.rprimer),
+   ("obimultiplex_forward_match", str a.fmatch), ("obimultiplex_reverse_match", str a.rmatch),
+   ("obimultiplex_forward_error", toString a.ferr), ("obimultiplex_reverse_error", toString a.rerr)] ++
+  tagBlock "obimultiplex_forward_tag" a.ftag ++ tagBlock "obimultiplex_reverse_tag" a.rtag ++
+  [("obimultiplex_direction", if a.forward then "forward" else "reverse")] ++
+  fpropBlock mk.fmode a.ident.fprop ++ rpropBlock mk.rmode a.ident.rprop
+
+def proposedOf : Option (Bytes × Option Nat) → Bytes
+  | some (t, _) => t
+  | none => []
+
+theorem annotsOf_blocks (mk : Marker) (a : Amplicon) :
+    annotsOf mk a =
+      match a.ident.pcr with
+      | none => baseAnnots mk a ++ [("obimultiplex_error",
+          "Cannot associate sample to the tag pair (" ++ str (proposedOf a.ident.fprop) ++ ":" ++
+            str (proposedOf a.ident.rprop) ++ ")")]
+      | some s => s.annots.foldl (fun acc kv => acc.set kv.1 kv.2)
+          (baseAnnots mk a ++ [("sample", s.name), ("experiment", s.experiment)]) := by
+  unfold annotsOf baseAnnots
+  by_cases hft : a.ftag = [] <;> by_cases hrt : a.rtag = [] <;>
+    rcases hfp : a.ident.fprop with _ | ⟨tf, df⟩ <;> rcases hrp : a.ident.rprop with _ | ⟨tr, dr⟩ <;>
+    rcases hp : a.ident.pcr with _ | s <;>
+    simp [hft, hrt, tagBlock, fpropBlock, rpropBlock, proposedOf, Annots.set]
+
+/-! ## the error flag of a record -/
+
+theorem baseAnnots_no_error (mk : Marker) (a : Amplicon) :
+    (baseAnnots mk a).any (·.1 == "obimultiplex_error") = false := by
+  unfold baseAnnots
+  by_cases hft : a.ftag = [] <;> by_cases hrt : a.rtag = [] <;>
+    rcases a.ident.fprop with _ | ⟨tf, df⟩ <;> rcases a.ident.rprop with _ | ⟨tr, dr⟩ <;>
+    simp [hft, hrt, tagBlock, fpropBlock, rpropBlock]
+
+theorem foldl_set_any (l : Annots) (an : Annots) (k' : String) (h : ∀ kv ∈ l, kv.1 ≠ k') :
+    (l.foldl (fun acc kv => acc.set kv.1 kv.2) an).any (·.1 == k') = an.any (·.1 == k') := by
+  induction l generalizing an with
+  | nil => rfl
+  | cons kv t ih =>
+    simp only [List.foldl_cons]
+    rw [ih _ (fun x hx => h x (List.mem_cons_of_mem _ hx)), Annots.any_set]
+    have : (kv.1 == k') = false := by simp [h kv List.mem_cons_self]
+    rw [this, Bool.or_false]
+
+/-- the sample sheet does not define an annotation column named `obimultiplex_error` -/
+def NoErrorKey (a : Amplicon) : Prop :=
+  ∀ s, a.ident.pcr = some s → ∀ kv ∈ s.annots, kv.1 ≠ "obimultiplex_error"
+
+theorem annotsOf_error (mk : Marker) (a : Amplicon) (hk : NoErrorKey a) :
+    (annotsOf mk a).any (·.1 == "obimultiplex_error") = a.ident.pcr.isNone := by
+  rw [annotsOf_blocks]
+  cases hp : a.ident.pcr with
+  | none => simp
+  | some s =>
+    simp only [Option.isNone_some]
+    rw [foldl_set_any _ _ _ (hk s hp)]
+    simp [baseAnnots_no_error]
+
+theorem rankAll_mem (id : String) (markers : List Marker) (n i : Nat) (as : List Amplicon)
+    (r : Record) (h : r ∈ rankAll id markers n i as) :
+    ∃ a ∈ as, r.seq = a.barcode ∧
+      ∀ mk, markers[a.marker - 1]? = some mk → NoErrorKey a → r.hasError = a.ident.pcr.isNone := by
+  induction as generalizing i with
+  | nil => simp [rankAll] at h
+  | cons a t ih =>
+    simp only [rankAll, List.mem_cons] at h
+    rcases h with h | h
+    · refine ⟨a, List.mem_cons_self, by rw [h], ?_⟩
+      intro mk hmk hk
+      subst h
+      simp only [Record.hasError, hmk]
+      rw [Annots.any_set, annotsOf_error mk a hk]
+      simp
+    · obtain ⟨b, hb, h1, h2⟩ := ih (i + 1) h
+      exact ⟨b, List.mem_cons_of_mem _ hb, h1, h2⟩
 
 /-! ## routing -/
 
